@@ -46,6 +46,27 @@ theorem sorted_remove : (m : VMap) → (q : List Nat) → m.Sorted = true → (m
     · simp only [VMap.Sorted, Bool.and_eq_true]
       exact ⟨⟨hs.1.1, allGt_remove m k q hs.1.2⟩, sorted_remove m q hs.2⟩
 
+/-! keys are unique in a sorted object: a removed key is gone -/
+
+theorem get_none_of_allGt : (m : VMap) → (q : List Nat) → allGt q m = true → m.get q = none
+  | .nil, _, _ => rfl
+  | .cons k v m, q, h => by
+    simp only [allGt, Bool.and_eq_true] at h
+    have hne : k ≠ q := fun e => Key.lt_ne q k h.1 e.symm
+    simp only [VMap.get, hne, if_false]
+    exact get_none_of_allGt m q h.2
+
+theorem get_remove_same : (m : VMap) → (q : List Nat) → m.Sorted = true → (m.remove q).get q = none
+  | .nil, _, _ => rfl
+  | .cons k v m, q, hs => by
+    simp only [VMap.Sorted, Bool.and_eq_true] at hs
+    by_cases e : k = q
+    · subst e
+      simp only [VMap.remove, if_true]
+      exact get_none_of_allGt m k hs.1.2
+    · simp only [VMap.remove, e, if_false, VMap.get]
+      exact get_remove_same m q hs.2
+
 end VMap
 
 namespace VList
